@@ -185,7 +185,9 @@ char ZCK_PUBLIC_API *zck_get_range_char(zckCtx *zck, zckRange *range) {
         count++;
         ri = ri->next;
     }
-    output[loc-1]='\0'; // Remove final comma
+    if(loc > 0)
+        loc--; // Remove final comma
+    output[loc++]='\0';
     output = zrealloc(output, loc);
     return output;
 }
